@@ -150,6 +150,21 @@ def _s8(day):
     return zd, day, ["db", "reindex"]
 
 
+def _s10(day):
+    """A whitelisted broken page has been repaired and NOTHING needs a write-back: the only
+    things the run has to change are the index, the hash map and the whitelist."""
+    files = {
+        "good.zo": "# G\n\n- 240101#G1 good note\n",
+        "w.zo": "# W\n\n- 240102#W1 ok note\n-- broken line\n- 240102#W2 after the broken line\n",
+    }
+    zd = Z.make_zdir(files, "c13b")
+    r = Z.db_create(zd, day, force=True)
+    if not Z.cli_ok(r):
+        raise H.HarnessError("S10 setup failed " + r.err[-300:])
+    (zd / "w.zo").write_text("# W\n\n- 240102#W1 ok note\n- 240102#W2 after the broken line\n")
+    return zd, day, ["db", "reindex"]
+
+
 def _s9(day):
     """New ZID-less notes on the SAME day as an earlier run that already handed out ZIDs of
     that date (they are in the files): the counters in next_ids.json must survive."""
@@ -170,7 +185,8 @@ SCENARIOS = {"S1-create-new-notes": _s1, "S2-reindex-stamp-new-note-new-page": _
              "S3-reindex-shared-tag": _s3, "S4-create-f-whitelist": _s4,
              "S5-reindex-without-write-back": _s5, "S6-reindex-page-with-properties-and-single-use-tags": _s6,
              "S7-reindex-renamed-page-and-moved-note": _s7, "S8-reindex-repaired-whitelisted-page": _s8,
-             "S9-reindex-more-new-notes-on-a-day-that-already-has-zids": _s9}
+             "S9-reindex-more-new-notes-on-a-day-that-already-has-zids": _s9,
+             "S10-reindex-repaired-whitelisted-page-without-write-back": _s10}
 
 
 # ---------------------------------------------------------------------------
@@ -437,7 +453,7 @@ def run(ctx: F.Ctx):
         _SC.clear()
     meta = {
         "rule": (
-            "9 scenarios (db create with three ZID-less notes on two pages; db reindex a day later "
+            "10 scenarios (db create with three ZID-less notes on two pages; db reindex a day later "
             "with an edited note, a new note, a new page, a new page in a sub-directory and an untouched page; db reindex with two "
             "changed pages sharing a tag whose other holder dropped it; db create -f with a broken "
             "page; db reindex after changes that need no write-back: a new page whose notes carry "
